@@ -151,6 +151,8 @@ func (c *coalesceOperator) loadSeries(ctx context.Context) error {
 				switch err := e.(type) {
 				case error:
 					errChan <- errors.Wrapf(err, "unexpected error")
+				default:
+					errChan <- errors.Newf("unexpected error: %v", e)
 				}
 
 			}()
